@@ -124,7 +124,6 @@ theorem C14_alloc_sites : Imeta.Gen.Facts.allocSites = [
     "isobmff/ftyp.go:minorBrandsToString:make([]string, maxBrandCount)",
     "isobmff/iloc.go:*Reader.readIloc:make([]ilocEntry, ilb.count)",
     "meta/canon/utils.go:ParseAFPoints:make([]AFPoint, validPoints)",
-    "preview/preview.go:*previewReader.RenderPreview:make([]byte, h.Size)",
     "xmp/reader.go:newXMPReader:bufio.NewReaderSize(xmpBufferLength)"] := by decide
 
 end Imeta.Exif
